@@ -1333,9 +1333,12 @@ find_module(FunctionWrapperIndex wrapper, InterrogateModuleDef *&def,
   int mi = binary_search_module(0, _modules.size(), wrapper);
   assert(mi >= 0 && mi < (int)_modules.size());
   def = _modules[mi];
+  if (wrapper < def->first_index || wrapper >= def->next_index) {
+    return false;
+  }
   module_index = wrapper - def->first_index;
 
-  return (wrapper < def->next_index);
+  return true;
 }
 
 /**
